@@ -37,13 +37,18 @@ def build_pool(rng, quick):
             pool.append((f"auth/{kind}/badkey-{nm}", "auth", p2, a))
     # registration specs (incl. RP-supplied roots for the built-in-root formats: argument aliasing)
     for fmt in regsim.FORMATS:
-        for variant in ("ok", "rp-only", "fault"):
+        for variant in ("ok", "rp-only", "untrusted", "fault"):
             s = regsim.RScn(fmt, "ES256-P256")
             s.n_inter = 0 if fmt == "fido-u2f" else 1
             if variant == "rp-only":
                 if fmt not in ("apple", "android-key", "android-safetynet"):
                     continue
                 s.roots_mode = "rp-only"
+            if variant == "untrusted":
+                # the very response of "rp-only", presented without the RP root that carried its trust: whatever an earlier call was given must not linger
+                if fmt not in regsim.X5C_FORMATS:
+                    continue
+                s.roots_mode = "none"
             if variant == "fault":
                 regcat.c_challenge_other(s, rng)
             if fmt in ("packed", "tpm", "fido-u2f") and variant == "ok":
@@ -173,6 +178,37 @@ def run(tier, seed):
         chk.count(kind + ":" + ("OK" if out.startswith("OK") else out[4:]))
         return res
 
+    # reference outcome of every call spec in a PRISTINE process state: each is executed in a forked child of this
+    # process before any call has been made here, so that no earlier call can have influenced it
+    import os
+    for spec in pool:
+        key, kind, pol, obj = spec
+        if kind not in ("auth", "reg"):
+            continue
+        rfd, wfd = os.pipe()
+        pid = os.fork()
+        if pid == 0:
+            try:
+                os.close(rfd)
+                with impl.substituted(pol.substitute if kind == "reg" else None, T0):
+                    out = run_spec(spec)[0]
+                os.write(wfd, out.encode("utf-8", "replace"))
+            finally:
+                os._exit(0)
+        os.close(wfd)
+        buf = b""
+        while True:
+            b = os.read(rfd, 65536)
+            if not b:
+                break
+            buf += b
+        os.close(rfd)
+        os.waitpid(pid, 0)
+        if buf:
+            first[key] = buf.decode("utf-8", "replace")
+            ml = model_of(spec)
+            if ml is not None and not fw.exn_refines(ml, first[key]):
+                chk.diverge("Model (pristine process)", f"{key}: model {ml[:80]} impl {first[key][:80]}", {"call": key})
     nh, L = (25, 30) if quick else (300, 100)
     for h in range(nh):
         hist = []
@@ -205,8 +241,8 @@ def run(tier, seed):
         for spec in calls:
             if spec[0] not in first:
                 first[spec[0]] = run_spec(spec)[0]
-        # rp-only specs substitute an UNRELATED built-in anchor: exclude them from the threaded run (different module-global substitution)
-        calls = [s for s in calls if "rp-only" not in s[0]]
+        # rp-only / untrusted specs of the built-in-root formats substitute an UNRELATED built-in anchor: exclude them from the threaded run (different module-global substitution)
+        calls = [s for s in calls if "rp-only" not in s[0] and not (s[0].endswith("/untrusted") and s[0].split("/")[1] in ("apple", "android-key", "android-safetynet"))]
         ths = [threading.Thread(target=worker, args=(t,)) for t in range(16)]
         for t in ths:
             t.start()
